@@ -853,7 +853,26 @@ def r3_13(F, R):
     R.floor("R3.13", "RawToken constructions with a category code", n, 2)
 
 
+def r3_14(F, R):
+    import json, os
+    from .common import narrowing_rule
+    aud = json.load(open(os.path.join(os.path.dirname(os.path.dirname(os.path.dirname(os.path.abspath(__file__)))), "tables", "narrowing_audited.json")))
+
+    def in_scope(fn):
+        nm = fn.name
+        if "::tests::" in nm or "::_::" in nm:
+            return False
+        return (nm.startswith("texlang::token::lexer::") or nm.startswith("texlang::token::trace::") or nm.startswith("texlang_stdlib::endlinechar::")
+                or " as texlang::token::lexer::Config>" in nm)
+    narrowing_rule(F, R, "R3.14", "the scanner, the tracer and what the scanner is configured with (the `Config` implementations and \\endlinechar's "
+                   "reader): `\\endlinechar` is inactive for every value outside 0..=127 — a value that is truncated before it is range-tested "
+                   "(333 -> 'M') appends a character to every line that TeX does not", in_scope, 0, aud)
+    n = len([f for f in F.fns.values() if in_scope(f)])
+    R.floor("R3.14", "functions of the scanner, tracer and scanner configuration examined", n, 15)
+
+
 def run(F, R, tier):
+    r3_14(F, R)
     r3_13(F, R)
     r3_12(F, R)
     r3_1(F, R)
